@@ -31,6 +31,23 @@ class HarnessError(Exception):
     pass
 
 
+def library_exception(e):
+    """An exception that escaped from seismic_zfp code on inputs the generators construct as valid is
+    a property failure, bucketed by (type, innermost seismic_zfp frame); an exception raised by the
+    harness itself (no seismic_zfp frame below the harness frame) is a harness error."""
+    import traceback as tb
+    frames = tb.extract_tb(e.__traceback__)
+    pkg = os.path.join(os.path.realpath(env.REPO), "seismic_zfp") + os.sep
+    inner = None
+    for fr in frames:
+        if os.path.realpath(fr.filename).startswith(pkg):
+            inner = fr
+    if inner is None:
+        return None
+    where = f"{os.path.basename(inner.filename)}:{inner.name}"
+    return Violation(f"library-exception:{type(e).__name__}:{where}", f"{type(e).__name__}: {e} (at {where} line {inner.lineno})")
+
+
 def jsonable(x):
     import numpy as np
     if isinstance(x, dict):
@@ -115,7 +132,15 @@ class Ctx:
         """Run one case.  Returns True if it passed (or hit only a listed known finding)."""
         self.mark_current(case)
         try:
-            res = run_case(case, self) or {}
+            try:
+                res = run_case(case, self) or {}
+            except Violation:
+                raise
+            except Exception as e:
+                v = library_exception(e)
+                if v is None:
+                    raise
+                raise v
         except Violation as v:
             kid = self.known.match(self.open_known, self.prop, case, v)
             if kid is not None:
